@@ -477,6 +477,135 @@ theorem C15_spline_scale_axis (c : F) (hc : 0 < c) (xs ys ks : List F) (hs : Str
 theorem C15_spline_solver_scale (c : F) (rows : List (Row F F)) :
     thomas (rows.map (scaleRow c)) = (thomas rows).map (c * ·) := thomas_scale c rows
 
+/-! ### the 3-point Periodic closed form under the same maps -/
+
+omit [ToUsize F] [LawfulToUsize F] [IsStrictOrderedRing F] in
+/-- three points, Periodic: the solve is the equal-ends test followed by the closed form -/
+theorem solveForK_periodic3_eq (xs ys : List F) (hy : ys.length = xs.length) (h3 : xs.length = 3) :
+    solveForK (V := F) xs ys .periodic =
+      if ys[0]'(by omega) = ys[2]'(by omega) then .ok (periodic3 (endsOf xs ys hy (by omega)))
+      else .error (.builder .valueError) := by
+  have hn : 3 ≤ xs.length := by omega
+  have hg : (3 ≤ ys.length ∧ xs.length = ys.length) := ⟨by omega, hy.symm⟩
+  have hl : ys.length = 3 := by omega
+  unfold solveForK
+  simp only [bind, Except.bind, pure, Except.pure]
+  rw [if_neg (not_not.mpr hg)]
+  simp only [getEnds_eq' xs ys hy hn, InternalBoundary.specialize, all2_scalar]
+  have e1 : (endsOf xs ys hy hn).yl1 = ys[2]'(by omega) := by simp only [endsOf]; congr 1; omega
+  have e0 : (endsOf xs ys hy hn).y0 = ys[0]'(by omega) := rfl
+  by_cases hends : ys[0]'(by omega) = ys[2]'(by omega)
+  · have : Cmp.eq (endsOf xs ys hy hn).y0 (endsOf xs ys hy hn).yl1 = true := by rw [cmp_eq, e0, e1]; exact hends
+    simp only [this, Bool.not_true, Bool.false_eq_true, if_false, hl, if_true, if_pos hends]
+  · have : Cmp.eq (endsOf xs ys hy hn).y0 (endsOf xs ys hy hn).yl1 = false := by rw [cmp_eq_false, e0, e1]; exact hends
+    simp only [this, Bool.not_false, if_true, if_neg hends]
+    rfl
+
+omit [ToUsize F] [LawfulToUsize F] in
+/-- the common slope of the 3-point periodic spline, written out -/
+theorem periodic3_val (xs ys : List F) (hy : ys.length = xs.length) (h3 : xs.length = 3) :
+    periodic3 (endsOf xs ys hy (by omega)) =
+      List.replicate 3 (((ys[1]'(by omega) - ys[0]'(by omega)) / (xs[1]'(by omega) - xs[0]'(by omega)) / (xs[1]'(by omega) - xs[0]'(by omega)) +
+        (ys[2]'(by omega) - ys[1]'(by omega)) / (xs[2]'(by omega) - xs[1]'(by omega)) / (xs[2]'(by omega) - xs[1]'(by omega))) /
+        (1 / (xs[1]'(by omega) - xs[0]'(by omega)) + 1 / (xs[2]'(by omega) - xs[1]'(by omega)))) := by
+  simp only [periodic3, endsOf, Ends.dx0, Ends.dx1, map1_scalar, map2_scalar, c1, Nat.cast_one, List.replicate]
+
+omit [ToUsize F] [LawfulToUsize F] in
+/-- **C15_periodic3_scale_data**: three points, Periodic — data × `c` multiplies the slopes by `c` -/
+theorem C15_periodic3_scale_data (c : F) (xs ys ks : List F) (hs : StrictInc xs)
+    (hy : ys.length = xs.length) (h3 : xs.length = 3)
+    (h : solveForK (V := F) xs ys .periodic = .ok ks) :
+    solveForK (V := F) xs (ys.map (c * ·)) .periodic = .ok (ks.map (c * ·)) := by
+  have hy' : (ys.map (c * ·)).length = xs.length := by simpa using hy
+  rw [solveForK_periodic3_eq xs ys hy h3] at h
+  rw [solveForK_periodic3_eq xs _ hy' h3]
+  have d0 : xs[1]'(by omega) - xs[0]'(by omega) ≠ 0 := ne_of_gt (sub_pos.mpr (hs.2 0 1 (by omega) (by omega)))
+  have d1 : xs[2]'(by omega) - xs[1]'(by omega) ≠ 0 := ne_of_gt (sub_pos.mpr (hs.2 1 2 (by omega) (by omega)))
+  have ds : xs[2]'(by omega) - xs[1]'(by omega) + (xs[1]'(by omega) - xs[0]'(by omega)) ≠ 0 := by
+    have a := sub_pos.mpr (hs.2 0 1 (by omega) (by omega)); have b := sub_pos.mpr (hs.2 1 2 (by omega) (by omega))
+    exact ne_of_gt (by linarith)
+  split at h
+  · rename_i he
+    simp only [Except.ok.injEq] at h
+    rw [if_pos (by simp only [List.getElem_map, he])]
+    rw [periodic3_val xs _ hy' h3, ← h, periodic3_val xs ys hy h3]
+    simp only [List.getElem_map, List.replicate, List.map_cons, List.map_nil, Except.ok.injEq, List.cons.injEq, and_true]
+    refine ⟨?_, ?_, ?_⟩ <;> (field_simp <;> ring)
+  · cases h
+
+omit [ToUsize F] [LawfulToUsize F] in
+/-- **C15_periodic3_add**: superposition -/
+theorem C15_periodic3_add (xs ys zs ks ms : List F) (hs : StrictInc xs)
+    (hy : ys.length = xs.length) (hz : zs.length = xs.length) (h3 : xs.length = 3)
+    (h1 : solveForK (V := F) xs ys .periodic = .ok ks)
+    (h2 : solveForK (V := F) xs zs .periodic = .ok ms) :
+    solveForK (V := F) xs (List.zipWith (· + ·) ys zs) .periodic = .ok (List.zipWith (· + ·) ks ms) := by
+  have hyz : (List.zipWith (· + ·) ys zs).length = xs.length := by simp [hy, hz]
+  rw [solveForK_periodic3_eq xs ys hy h3] at h1
+  rw [solveForK_periodic3_eq xs zs hz h3] at h2
+  rw [solveForK_periodic3_eq xs _ hyz h3]
+  have d0 : xs[1]'(by omega) - xs[0]'(by omega) ≠ 0 := ne_of_gt (sub_pos.mpr (hs.2 0 1 (by omega) (by omega)))
+  have d1 : xs[2]'(by omega) - xs[1]'(by omega) ≠ 0 := ne_of_gt (sub_pos.mpr (hs.2 1 2 (by omega) (by omega)))
+  have ds : xs[2]'(by omega) - xs[1]'(by omega) + (xs[1]'(by omega) - xs[0]'(by omega)) ≠ 0 := by
+    have a := sub_pos.mpr (hs.2 0 1 (by omega) (by omega)); have b := sub_pos.mpr (hs.2 1 2 (by omega) (by omega))
+    exact ne_of_gt (by linarith)
+  split at h1
+  · rename_i he1
+    split at h2
+    · rename_i he2
+      simp only [Except.ok.injEq] at h1 h2
+      rw [if_pos (by simp only [List.getElem_zipWith, he1, he2])]
+      rw [periodic3_val xs _ hyz h3, ← h1, ← h2, periodic3_val xs ys hy h3, periodic3_val xs zs hz h3]
+      simp only [List.getElem_zipWith, List.replicate, List.zipWith_cons_cons, List.zipWith_nil_left, Except.ok.injEq,
+        List.cons.injEq, and_true]
+      refine ⟨?_, ?_, ?_⟩ <;> (field_simp <;> ring)
+    · cases h2
+  · cases h1
+
+omit [ToUsize F] [LawfulToUsize F] in
+/-- **C15_periodic3_shift**: shifting the axis leaves the slopes unchanged -/
+theorem C15_periodic3_shift (d : F) (xs ys ks : List F)
+    (hy : ys.length = xs.length) (h3 : xs.length = 3)
+    (h : solveForK (V := F) xs ys .periodic = .ok ks) :
+    solveForK (V := F) (xs.map (· + d)) ys .periodic = .ok ks := by
+  have hy' : ys.length = (xs.map (· + d)).length := by simpa using hy
+  have h3' : (xs.map (· + d)).length = 3 := by simpa using h3
+  rw [solveForK_periodic3_eq xs ys hy h3] at h
+  rw [solveForK_periodic3_eq _ ys hy' h3']
+  have e : ∀ a b : F, a + d - (b + d) = a - b := fun a b => by ring
+  split at h
+  · rename_i he
+    simp only [Except.ok.injEq] at h
+    rw [if_pos he, periodic3_val _ ys hy' h3', ← h, periodic3_val xs ys hy h3]
+    simp only [List.getElem_map, e]
+  · cases h
+
+omit [ToUsize F] [LawfulToUsize F] in
+/-- **C15_periodic3_scale_axis**: axis × `c > 0` divides the slopes by `c` -/
+theorem C15_periodic3_scale_axis (c : F) (hc0 : 0 < c) (xs ys ks : List F) (hs : StrictInc xs)
+    (hy : ys.length = xs.length) (h3 : xs.length = 3)
+    (h : solveForK (V := F) xs ys .periodic = .ok ks) :
+    solveForK (V := F) (xs.map (c * ·)) ys .periodic = .ok (ks.map (· / c)) := by
+  have hy' : ys.length = (xs.map (c * ·)).length := by simpa using hy
+  have h3' : (xs.map (c * ·)).length = 3 := by simpa using h3
+  rw [solveForK_periodic3_eq xs ys hy h3] at h
+  rw [solveForK_periodic3_eq _ ys hy' h3']
+  have hcne : c ≠ 0 := ne_of_gt hc0
+  have d0 : xs[1]'(by omega) - xs[0]'(by omega) ≠ 0 := ne_of_gt (sub_pos.mpr (hs.2 0 1 (by omega) (by omega)))
+  have d1 : xs[2]'(by omega) - xs[1]'(by omega) ≠ 0 := ne_of_gt (sub_pos.mpr (hs.2 1 2 (by omega) (by omega)))
+  have ds : xs[2]'(by omega) - xs[1]'(by omega) + (xs[1]'(by omega) - xs[0]'(by omega)) ≠ 0 := by
+    have a := sub_pos.mpr (hs.2 0 1 (by omega) (by omega)); have b := sub_pos.mpr (hs.2 1 2 (by omega) (by omega))
+    exact ne_of_gt (by linarith)
+  have e : ∀ a b : F, c * a - c * b = c * (a - b) := fun a b => by ring
+  split at h
+  · rename_i he
+    simp only [Except.ok.injEq] at h
+    rw [if_pos he, periodic3_val _ ys hy' h3', ← h, periodic3_val xs ys hy h3]
+    simp only [List.getElem_map, e, List.replicate, List.map_cons, List.map_nil, Except.ok.injEq, List.cons.injEq, and_true]
+    refine ⟨?_, ?_, ?_⟩ <;> (field_simp <;> ring)
+  · cases h
+
 end field
+
 
 end NdInterp
